@@ -77,6 +77,80 @@ impl C01 {
     }
 }
 
+impl C01 {
+    fn image_case(&self, cx: &mut Ctx, rng: &mut Rng) {
+        use crate::gen::bitmap_c01 as bm;
+        use crate::sfnt;
+        // host font: a small glyf seed, or a minimal generated font
+        let small: Vec<&SeedFont> = self.seeds.iter().filter(|f| f.data.len() < 30_000 && f.data.starts_with(&[0, 1, 0, 0])).collect();
+        let host = if !small.is_empty() && rng.chance(2, 3) {
+            let f = *rng.pick(&small);
+            sfnt::Font::parse(&f.data).map(|p| (f.name.clone(), p))
+        } else {
+            None
+        };
+        let (name, host) = match host {
+            Some(h) => h,
+            None => {
+                let n = 2 + rng.below(40) as u16;
+                let sub = crate::sfnt::cmap::write_format12(&[(0x41, 0x41, 1), (0x1F600, 0x1F600, 1)], 0);
+                let cmap = crate::sfnt::cmap::write_cmap(&[crate::sfnt::cmap::Record { platform: 3, encoding: 10, subtable: 0 }], &[sub]);
+                ("generated/minimal.ttf".to_string(), sfnt::tables::minimal_font(cmap, n, None))
+            }
+        };
+        let n = host.gets("maxp").and_then(sfnt::tables::maxp_num_glyphs).unwrap_or(4);
+        let mut desc: Vec<String> = Vec::new();
+        let mut tables: Vec<(&str, Vec<u8>)> = Vec::new();
+        let kind = rng.below(8);
+        match kind {
+            0..=4 => {
+                let color = rng.chance(3, 5);
+                let mut t = bm::gen_bitmap_tables(rng, n.min(60), color);
+                for &(ifmt, imfmt) in &t.formats {
+                    cx.class(&format!("img-gen:index-format-{}", ifmt));
+                    cx.class(&format!("img-gen:image-format-{}", imfmt));
+                }
+                desc.push(format!("generated-{}-tables", if color { "CBLC/CBDT" } else { "EBLC/EBDT" }));
+                for _ in 0..rng.below(4) {
+                    let d = if rng.chance(3, 4) { bm::fault_field(rng, &mut t) } else { bm::fault_data(rng, &mut t) };
+                    cx.class(&format!("fault:{}", d.split(' ').next().unwrap_or("")));
+                    desc.push(d);
+                }
+                // a colour pair may also be offered under the monochrome tags and vice versa
+                let as_color = if rng.chance(1, 8) { !color } else { color };
+                let (lt, dt) = if as_color { ("CBLC", "CBDT") } else { ("EBLC", "EBDT") };
+                tables.push((lt, t.loc));
+                tables.push((dt, t.dat));
+                cx.class(if as_color { "seed:generated-cblc-cbdt" } else { "seed:generated-eblc-ebdt" });
+            }
+            5 | 6 => {
+                let (mut t, fields) = bm::gen_sbix(rng, n.min(60));
+                desc.push("generated-sbix".into());
+                for _ in 0..rng.below(3) {
+                    let d = bm::fault_fields(rng, &mut t, &fields);
+                    cx.class("fault:img.field");
+                    desc.push(d);
+                }
+                tables.push(("sbix", t));
+                cx.class("seed:generated-sbix");
+            }
+            _ => {
+                let (mut t, fields) = bm::gen_svg(rng, n.min(60));
+                desc.push("generated-SVG".into());
+                for _ in 0..rng.below(3) {
+                    let d = bm::fault_fields(rng, &mut t, &fields);
+                    cx.class("fault:img.field");
+                    desc.push(d);
+                }
+                tables.push(("SVG ", t));
+                cx.class("seed:generated-svg");
+            }
+        }
+        let data = bm::attach(&host, &tables);
+        self.run(cx, rng, &name, &data, &desc);
+    }
+}
+
 impl Prop for C01 {
     fn exhaustive(&mut self, cx: &mut Ctx, shard: u64, of: u64) {
         // committed witnesses of fixed defects and known findings, and the unfaulted seeds
@@ -131,6 +205,13 @@ impl Prop for C01 {
                 desc.push(a.desc);
             }
             self.run(cx, rng, "generated/variable.ttf", &data, &desc);
+            return;
+        }
+        // Generated embedded-image tables (CBLC/CBDT, EBLC/EBDT, sbix, SVG) attached to a small
+        // TrueType seed or to a minimal font, unfaulted or with 1-3 located field / data faults: the
+        // corpus has no CBDT font and reaches EBLC only through a non-default image filter.
+        if rng.chance(1, 7) {
+            self.image_case(cx, rng);
             return;
         }
         // F6: container faults behind the compression layer (WOFF2 transforms, WOFF directory/zlib)
